@@ -217,7 +217,13 @@ func runCompute(parent context.Context, in *ComputeIn) (obs ComputeObs) {
 			}
 			_, _ = basic.Compute(newFuelCtx(context.Background(), 400), c, in.P.sparse(), float64(in.A), float64(in.E))
 			orig := in.C.csr()
-			if in.Reweigh == 2 {
+			hasZero := false // a merge erases explicitly stored zeros: those matrices are restored in place
+			for _, row := range orig.Entries {
+				for _, e := range row {
+					hasZero = hasZero || e.Value == 0
+				}
+			}
+			if in.Reweigh == 2 && !hasZero {
 				c.Merge(&orig.CSMatrix)
 			} else {
 				for i, row := range c.Entries {
